@@ -322,6 +322,40 @@ def run_shard(ctx):
                     if d:
                         ctx.viol(f"differs:{fmt}:content:blank-rows-other-sheets:{d[0]}", f"[{fmt}] blank spacer rows on entities/external_choices/settings change the result ({d[0]}): {d[1]}"[:900],
                                  common.witness(form, fmt=fmt, channel="auto", variant="blank-rows-other-sheets", sheets=_jsonable(bs)))
+        # (2h) text containers saved with a UTF-8 signature (what spreadsheet programs write for "CSV UTF-8"): an encoding mark, not workbook content
+        if i % 3 == 1 and md_representable(sheets):
+            import tempfile
+            fmt = "csv" if i % 2 else "md"
+            text = render.render(sheets, fmt)
+            raw = b"\xef\xbb\xbf" + text.encode("utf-8")
+            ref = ref0 = drive.call_convert(render.to_dict(sheets), **form.args)
+            for ch in ("bytes", "str", "bytesio", "path"):
+                if ch == "bytes":
+                    o = drive.call_convert(raw, file_type="." + fmt, **form.args)
+                elif ch == "str":
+                    o = drive.call_convert("\ufeff" + text, file_type="." + fmt, **form.args)
+                elif ch == "bytesio":
+                    import io
+                    o = drive.call_convert(io.BytesIO(raw), file_type="." + fmt, **form.args)
+                else:
+                    d0 = tempfile.mkdtemp(prefix="verif_bom_")
+                    pth = os.path.join(d0, "stemname." + fmt)
+                    try:
+                        with open(pth, "wb") as fh:
+                            fh.write(raw)
+                        o = drive.call_convert(pth, **form.args)
+                    finally:
+                        os.unlink(pth)
+                        os.rmdir(d0)
+                    ref = drive.call_convert(render.to_dict(sheets, fallback_form_name="stemname"), **form.args)
+                ctx.ctr("renderings_compared")
+                ctx.ctr("utf8_signature_cases")
+                ctx.case(sig=f"{sig}|{fmt}|{ch}|bom")
+                d = outcome_diff(ref, o)
+                if d:
+                    ctx.viol(f"differs:{fmt}:content:utf8-signature:{d[0]}", f"[{fmt}/{ch}] a leading UTF-8 signature (BOM) changes the result ({d[0]}): {d[1]}"[:900],
+                             common.witness(form, fmt=fmt, channel=ch, variant="utf8-signature", sheets=_jsonable(sheets)))
+                ref = ref0
         # (3) empty runs
         k = rng.choice([1, 2, 59, 60, 60])
         sh = rng.choice([s for s in ("survey", "choices") if s in sheets and len(sheets[s][1]) > 1])
